@@ -242,6 +242,7 @@ struct Emitter {
   std::string varInfo(const VarDecl *V) {
     QualType T = V->getType();
     std::string o = "{\"name\":" + jstr(nameOf(V)) + ",\"type\":" + jstr(typeStr(T));
+    o += ",\"canon\":" + jstr(T.getCanonicalType().getUnqualifiedType().getAsString());
     o += ",\"line\":" + std::to_string(lineOf(V->getLocation()));
     if (auto *CAT = Ctx.getAsConstantArrayType(T)) {
       o += ",\"array_n\":" + std::to_string(CAT->getSize().getZExtValue());
@@ -257,6 +258,7 @@ struct Emitter {
       QualType P = T->getPointeeType();
       o += std::string(",\"ptr\":true,\"pointee_const\":") + (P.isConstQualified() ? "true" : "false");
       o += ",\"pointee\":" + jstr(typeStr(P.getUnqualifiedType()));
+      o += ",\"pointee_canon\":" + jstr(P.getCanonicalType().getUnqualifiedType().getAsString());
       if (!P->isIncompleteType() && !P->isFunctionType() && !P->isVoidType())
         o += ",\"pointee_bytes\":" + std::to_string(Ctx.getTypeSizeInChars(P).getQuantity());
     }
@@ -454,9 +456,9 @@ public:
     std::set<std::string> seenS;
     for (auto *R : v.recs) {
       if (!inRepo(R->getLocation())) continue;
-      std::string name = R->getNameAsString();
-      if (name.empty()) if (auto *TD = R->getTypedefNameForAnonDecl()) name = TD->getNameAsString();
-      if (name.empty() || R->isInvalidDecl() || !seenS.insert(name).second) continue;
+      if (R->isInvalidDecl()) continue;
+      std::string name = Ctx.getTypeDeclType(R).getCanonicalType().getAsString();
+      if (name.empty() || !seenS.insert(name).second) continue;
       const ASTRecordLayout &L = Ctx.getASTRecordLayout(R);
       if (!first) OS << ","; first = false;
       OS << jstr(name) << ":{\"bytes\":" << L.getSize().getQuantity() << ",\"fields\":[";
@@ -465,6 +467,7 @@ public:
         if (!ff) OS << ","; ff = false;
         QualType FT = F->getType();
         OS << "{\"name\":" << jstr(F->getNameAsString()) << ",\"type\":" << jstr(FT.getAsString())
+           << ",\"canon\":" << jstr(FT.getCanonicalType().getUnqualifiedType().getAsString())
            << ",\"offset\":" << (L.getFieldOffset(idx) / 8);
         if (!FT->isIncompleteType()) OS << ",\"bytes\":" << Ctx.getTypeSizeInChars(FT).getQuantity();
         if (auto *CAT = Ctx.getAsConstantArrayType(FT)) OS << ",\"array_n\":" << CAT->getSize().getZExtValue();
